@@ -258,6 +258,45 @@ def replay_qty(model, state, ob):
     return {'failed': bool(failed), 'input': desc, 'observed': got, 'expected': want, 'script': script}
 
 
+def u_units_ops(I):
+    """FundamentalUnits.__mul__ / __truediv__ / __div__ / __pow__: the class invariant (the are_floats flags agree with the exponents, near-integers
+    are snapped) is established by _build and by nothing else -- every operator must return what _build makes of the right exponent vector, for
+    operands whose exponents are arbitrary reals (fractional powers included) and for int, float and symbolic powers"""
+    ctx = I.ctx
+    cls = source.module(QTY).classes['FundamentalUnits']
+    op = ['__mul__', '__truediv__', '__div__', '__pow__'][ctx.choose([True] * 4, 'operator')]
+    mk = lambda tag: Obj(cls, {'exps': NDArr((7,), [I.fresh('%s%d' % (tag, i), 'real') for i in range(7)]),
+                               'are_floats': NDArr((7,), [I.fresh('%sf%d' % (tag, i), 'bool') for i in range(7)], 'bool')}, 'param')
+    a = mk('a')
+    built = []
+
+    def build_contract(I_, args, k):
+        arr = args[-1]
+        r = Obj(cls, {'exps': NDArr((7,), [I_.fresh('b%d' % i, 'real') for i in range(7)]), 'are_floats': NDArr((7,), [I_.fresh('bf%d' % i, 'bool') for i in range(7)], 'bool')}, 'fresh')
+        built.append((arr, r))
+        return r
+    I.world.contracts[(QTY, 'FundamentalUnits._build')] = build_contract
+    if op == '__pow__':
+        other = [2, 0.5, I.fresh('p', 'real')][ctx.choose([True] * 3, 'power: python int, python float, symbolic')]
+        want = [z3_of(other) * e for e in a.fields['exps'].items]
+    else:
+        other = mk('b')
+        sign = 1 if op == '__mul__' else -1
+        want = [x + sign * y for x, y in zip(a.fields['exps'].items, other.fields['exps'].items)]
+    out = run_target(I, QTY, 'FundamentalUnits.' + op, [other], self_obj=a)
+
+    def posts(r):
+        ok = len(built) == 1 and r is built[0][1]
+        ps = [('the result is what _build makes of one exponent vector (flags and snapping come from _build, never copied from an operand)', z3.BoolVal(ok))]
+        if ok:
+            arr = built[0][0]
+            items = list(arr.items) if isinstance(arr, NDArr) else None
+            ps.append(('... of the right vector: exponents added / subtracted / scaled', z3.And([z3_of(x) == w for x, w in zip(items, want)]) if items and len(items) == 7 else z3.BoolVal(False)))
+        return ps
+    check_outcome(I, out, raises={}, returns=posts)
+    return {'inputs': {}}
+
+
 def replay_build(model, state, ob):
     """exponent vectors around the snapping threshold (1e-7) through the real FundamentalUnits._build"""
     import numpy as np
@@ -296,6 +335,7 @@ UNITS += [
     Unit('GenericQuantity.__rtruediv__', (QTY, 'GenericQuantity.__rtruediv__'), muldiv_unit('truediv', True)),
     Unit('GenericQuantity.__pow__', (QTY, 'GenericQuantity.__pow__'), pow_unit),
     Unit('FundamentalUnits._build', (QTY, 'FundamentalUnits._build'), build_unit, replay_build),
+    Unit('FundamentalUnits.__mul__/__truediv__/__pow__', (QTY, 'FundamentalUnits.__pow__'), u_units_ops),
 ]
 
 from . import standins     # noqa: E402
